@@ -32,6 +32,15 @@ package controlcommands
 //@   on send * : assert lookedOk && looked != nil && nDel == 1
 //@   ensures nLook == 1 && nDel == 1
 
+// C12 (a late reply never blocks anything): completing a call never blocks. A reply processed in the window in which
+// RunCommand has already timed out but has not yet removed the pending entry still finds the call and sends on its Done
+// channel, which nobody reads any more: with an unbuffered channel that ProcessResponse - the goroutine the scheduler
+// started for the reply - waits for ever. The channel of a new call has room for the one completion it can get.
+//@ func NewCall(cmd MesosCommand) (c *Call)
+//@   property C12
+//@   ensures c != nil && fresh(c) && c.Request == cmd && c.Response == nil && c.Error == nil
+//@   ensures cap(c.Done) >= 1
+
 // RunCommand registers exactly (command id, receiver) before sending, and on every path that does not end with the
 // reply being delivered (send error, timeout) removes exactly that key again.
 //@ func (s *Servent) RunCommand(cmd MesosCommand, receiver MesosCommandTarget) (resp MesosCommandResponse, err error)
